@@ -160,7 +160,8 @@ func lockTimeouts(o *hc.Out, scratch string, rounds int) {
 		d := filepath.Join(scratch, fmt.Sprintf("c09t-%d", r))
 		_ = os.RemoveAll(d)
 		_ = os.MkdirAll(d, 0o755)
-		path := filepath.Join(d, "tbl.csv")
+		base := []string{"tbl.csv", ".tbl.csv", "tbl.csv", "My Table.CSV"}[r%4] // hidden and unusual names too
+		path := filepath.Join(d, base)
 		_ = os.WriteFile(path, []byte("0"), 0o644)
 		ctx := context.Background()
 		holder := file.NewContainer()
@@ -176,14 +177,14 @@ func lockTimeouts(o *hc.Out, scratch string, rounds int) {
 			o.Law("handler_error", map[string]interface{}{"scenario": "lock_timeout holder", "error": err.Error()})
 			continue
 		}
-		before := fsState(d, "tbl.csv")
+		before := fsState(d, base)
 		other := file.NewContainer()
 		_, e1 := other.CreateHandlerForUpdate(ctx, path, 40*time.Millisecond, time.Millisecond)
 		var e2 error
 		if holdForUpdate {
 			_, e2 = other.CreateHandlerForRead(ctx, path, 40*time.Millisecond, time.Millisecond)
 		}
-		after := fsState(d, "tbl.csv")
+		after := fsState(d, base)
 		rep := map[string]interface{}{"holder_for_update": holdForUpdate, "before": before, "after": after, "update_error": fmt.Sprint(e1), "read_error": fmt.Sprint(e2)}
 		if _, ok := e1.(*file.TimeoutError); !ok {
 			o.Law("lock_timeout_expected", rep)
@@ -205,7 +206,7 @@ func lockTimeouts(o *hc.Out, scratch string, rounds int) {
 		} else {
 			_ = holder.Close(hh)
 		}
-		if st := fsState(d, "tbl.csv"); st != "L0R0" {
+		if st := fsState(d, base); st != "L0R0" {
 			rep["state"] = st
 			o.Law("control_files_left", rep)
 		}
@@ -214,6 +215,99 @@ func lockTimeouts(o *hc.Out, scratch string, rounds int) {
 		o.Count("lock_timeout_rounds")
 		_ = os.RemoveAll(d)
 	}
+}
+
+// accessForms: while another process holds a table for update (its lock file exists) EVERY way of reaching the
+// table's data — plain name, table functions, inline functions, sub-queries, cursors, every data-changing
+// statement — ends in the lock-timeout error and shows no data; while another process only READS it (an rlock
+// exists) readers go through and every writer times out.
+func accessForms(o *hc.Out, bin, scratch string) {
+	type form struct {
+		name, sql string
+		writes    bool
+	}
+	forms := []form{
+		{"select", "SELECT * FROM t", false},
+		{"select_quoted_path", "SELECT * FROM `t.csv`", false},
+		{"select_for_update", "SELECT * FROM t FOR UPDATE", true},
+		{"subquery", "SELECT * FROM (SELECT * FROM t) s", false},
+		{"scalar_subquery", "SELECT (SELECT COUNT(*) FROM t) FROM DUAL", false},
+		{"exists", "SELECT 1 FROM DUAL WHERE EXISTS (SELECT 1 FROM t)", false},
+		{"join", "SELECT * FROM u JOIN t ON u.id = t.id", false},
+		{"csv_function", "SELECT * FROM CSV(',', `t.csv`)", false},
+		{"csv_inline", "SELECT * FROM CSV_INLINE(',', `t.csv`)", false},
+		{"cursor", "VAR @a, @b; DECLARE c CURSOR FOR SELECT * FROM t; OPEN c; FETCH c INTO @a, @b; PRINT @a;", false},
+		{"select_into", "VAR @a, @b; SELECT id, v INTO @a, @b FROM t LIMIT 1; PRINT @a;", false},
+		{"update", "UPDATE t SET v = 9", true},
+		{"insert", "INSERT INTO t VALUES (9, 9)", true},
+		{"delete", "DELETE FROM t WHERE id = 1", true},
+		{"replace", "REPLACE INTO t (id, v) USING (id) VALUES (1, 9)", true},
+		{"alter_add", "ALTER TABLE t ADD x", true},
+		{"alter_set", "ALTER TABLE t SET LINE_BREAK TO CRLF", true},
+		{"update_join", "UPDATE t SET t.v = u.v FROM t JOIN u ON t.id = u.id", true},
+		{"insert_select", "INSERT INTO u SELECT id, v FROM t", false},
+		{"json_select", "SELECT * FROM j", false},
+		{"json_function", "SELECT * FROM JSON('', `j.json`)", false},
+		{"json_inline", "SELECT * FROM JSON_INLINE('', `j.json`)", false},
+		{"json_table", "SELECT * FROM JSON_TABLE('', `j.json`)", false},
+	}
+	for _, held := range []string{"lock", "rlock"} {
+		for _, f := range forms {
+			d := filepath.Join(scratch, "c09-forms")
+			_ = os.RemoveAll(d)
+			_ = os.MkdirAll(d, 0o755)
+			_ = os.WriteFile(filepath.Join(d, "t.csv"), []byte("id,v\n1,SECRETDATA\n2,b\n"), 0o644)
+			_ = os.WriteFile(filepath.Join(d, "u.csv"), []byte("id,v\n1,x\n"), 0o644)
+			_ = os.WriteFile(filepath.Join(d, "j.json"), []byte(`[{"id":1,"v":"SECRETDATA"}]`), 0o644)
+			for _, b := range []string{"t.csv", "j.json"} {
+				ctl := "." + b + ".lock"
+				if held == "rlock" {
+					ctl = "." + b + ".abcdefghijkl.rlock"
+				}
+				_ = os.WriteFile(filepath.Join(d, ctl), nil, 0o644)
+			}
+			before := fsListing(d)
+			cmd := exec.Command(bin, "--repository", d, "--quiet", "--wait-timeout", "0.15", f.sql)
+			cmd.Dir = d
+			cmd.Env = append(os.Environ(), "HOME="+d)
+			var out bytes.Buffer
+			cmd.Stdout, cmd.Stderr = &out, &out
+			err := cmd.Run()
+			rc := 0
+			if ee, ok := err.(*exec.ExitError); ok {
+				rc = ee.ExitCode()
+			}
+			rep := map[string]interface{}{"held_by_other": held, "form": f.name, "sql": f.sql, "exit_code": rc, "output": out.String()}
+			mustTimeOut := held == "lock" || f.writes
+			timedOut := strings.Contains(out.String(), "lock wait timeout")
+			switch {
+			case mustTimeOut && (!timedOut || rc == 0):
+				o.Law("access_while_locked_did_not_time_out", rep)
+			case mustTimeOut && strings.Contains(out.String(), "SECRETDATA"):
+				o.Law("access_while_locked_showed_data", rep)
+			case !mustTimeOut && (timedOut || rc != 0):
+				o.Law("reader_blocked_by_reader", rep)
+			}
+			if after := fsListing(d); mustTimeOut && after != before {
+				rep["before"], rep["after"] = before, after
+				o.Law("timed_out_access_changed_directory", rep)
+			}
+			o.Eval()
+			o.Count("access_form:" + held + ":" + f.name)
+		}
+	}
+	o.NonTrivial("access_forms")
+	_ = os.RemoveAll(filepath.Join(scratch, "c09-forms"))
+}
+
+func fsListing(dir string) string {
+	ents, _ := os.ReadDir(dir)
+	var s []string
+	for _, e := range ents {
+		b, _ := os.ReadFile(filepath.Join(dir, e.Name()))
+		s = append(s, e.Name()+"="+hc.Hex(string(b)))
+	}
+	return strings.Join(s, " ")
 }
 
 func run(seed int64, n int, dir string, _ []string) {
@@ -226,6 +320,7 @@ func run(seed int64, n int, dir string, _ []string) {
 	}
 	if bin := os.Getenv("VERIF_CSVQ"); bin != "" {
 		realProcesses(o, g, bin, scratch, 2+n/400)
+		accessForms(o, bin, scratch)
 	}
 	lockTimeouts(o, scratch, 2+n/100)
 	for it := 0; it < n; it++ {
@@ -235,7 +330,11 @@ func run(seed int64, n int, dir string, _ []string) {
 		}
 		d := filepath.Join(scratch, fmt.Sprintf("c09-%d", it))
 		_ = os.MkdirAll(d, 0o755)
-		path := filepath.Join(d, "tbl.csv")
+		base := "tbl.csv"
+		if it%5 == 4 {
+			base = ".tbl.csv" // a hidden table file: its control files get a second dot, the rlock glob must agree
+		}
+		path := filepath.Join(d, base)
 		_ = os.WriteFile(path, []byte("0"), 0o644)
 
 		s := &sched{byGid: map[int64]int{}, events: make(chan event, 64)}
@@ -411,7 +510,7 @@ func run(seed int64, n int, dir string, _ []string) {
 			collect(400*time.Millisecond, p)
 			steps++
 			trace = append(trace, fmt.Sprintf("%d:%s", p, name))
-			states = append(states, fsState(d, "tbl.csv"))
+			states = append(states, fsState(d, base))
 			// mutual exclusion, observed on the real code
 			s.mtx.Lock()
 			w, r := 0, 0
@@ -460,7 +559,7 @@ func run(seed int64, n int, dir string, _ []string) {
 		if final != committed {
 			o.Law("lost_update", map[string]interface{}{"roles": roles, "schedule": trace, "committed": committed, "final_count": final})
 		}
-		if st := fsState(d, "tbl.csv"); st != "L0R0" {
+		if st := fsState(d, base); st != "L0R0" {
 			o.Law("control_files_left", map[string]interface{}{"roles": roles, "schedule": trace, "state": st})
 		}
 		o.Case(fmt.Sprintf("c09.trace %s %s", strings.Join(roles, ""), strings.Join(trace, " ")), strings.Join(states, ","))
